@@ -26,6 +26,9 @@ import traceback
 from . import vlib
 from .vlib import Discrepancy, Infra
 
+# properties whose decision functions are additionally tied by translation (Core/TranslatedTie.v)
+TRANSLATED_TIE = {"C03", "C09", "C14"}
+
 
 class Case:
     __slots__ = ("term", "inp", "seen", "sig", "nontrivial", "key")
@@ -72,6 +75,19 @@ def _run(mod, a, t0):
     model_ok, proofs_ok, rep, log = vlib.build_property(prop, getattr(mod, "EXTRA_TARGETS", ()))
     if not model_ok:
         raise Infra("the Coq model of %s does not build:\n%s" % (prop, log[-4000:]))
+    tie_cov = {}
+    if prop in TRANSLATED_TIE:
+        # second tie: decision functions regenerated from the source text must equal the model's
+        from . import translate
+        status = translate.regenerate_all()
+        if all(v == "translated" for v in status.values()):
+            ok_tie, log_tie = vlib.make(["theories/Core/TranslatedTie.vo"])
+            tie_cov["translated_tie"] = {"functions": status, "lemmas_check": ok_tie}
+            if not ok_tie:
+                proofs_ok = False
+                log = log_tie
+        else:
+            tie_cov["translated_tie"] = {"functions": status, "lemmas_check": "unavailable (source shape not in the translator's subset; not a verdict)"}
 
     if a.replay:
         data = json.load(open(a.replay))
@@ -158,6 +174,7 @@ def _run(mod, a, t0):
     samples = [{"input": c.inp, "implementation": c.seen} for c in cases[:: max(1, len(cases) // 5)]][:6]
     exhaustive = bool(getattr(mod, "EXHAUSTIVE", lambda t: False)(tier))
     cov = dict(extra_cov)
+    cov.update(tie_cov)
     cov["corpus_cases"] = n_corpus
     if hasattr(mod, "distribution"):
         cov["input_distribution"] = mod.distribution(cases)
